@@ -535,6 +535,11 @@ func (a *Analyzer) Feed(r *ev.Rec) {
 		}
 	case "harness-error":
 		a.rep.Inconclusive = append(a.rep.Inconclusive, "harness error: "+r.Err)
+	case "pending-action-after-transfer":
+		a.stat("pending-actions-after-failed-transfer:" + r.Kind)
+		if r.Kind == "stuck" {
+			a.find("C16", "membership-action-not-resumed-after-failed-transfer", "", r.Q, "leader %d/%d: the leadership transfer failed (%s), and 30 heartbeat timeouts later, with no fault active, the pending promotion has not been carried out: %s", r.Cid, r.Nid, r.Err, cfgString(r.Cfg))
+		}
 	case "remote-error":
 		a.stat("remote-errors:" + r.Note)
 	case "remote-error-unrecognisable":
